@@ -1,2 +1,79 @@
 import PbVerif.Model.DescFeatures
-/- Model.Desc — umbrella of the descriptor model (features; abstract descriptor-proto tree, build, check, toProto). -/
+import PbVerif.Model.DescTree
+import PbVerif.Model.DescBuild
+import PbVerif.Model.DescValidate
+/-
+Model.Desc — umbrella of the descriptor model, plus `toProto`: `protodesc.ToFileDescriptorProto`
+(reflect/protodesc/proto.go) on the modelled accessors.  `toProto` reads the DESCRIPTOR accessors only
+(cardinality, kind, resolved references, oneof membership, …); option bits (`packed`, `lazy`, `features`,
+`map_entry`, `message_set_wire_format`, `allow_alias`) are the cloned options messages and are copied.
+Not modelled (correspondence only): source locations, imports, services' streaming flags, option messages
+beyond the promoted bits, default-value literals beyond "present / parses", visibility.
+-/
+namespace Desc
+open Gen.EditionDefaults
+
+def unknownPrefix : Str := [42, 46]   -- "*."
+
+/-- `fullNameOf(d)` -/
+def fullNameOf (t : TargetRef) : Str :=
+  if unknownPrefix.isPrefixOf t.fullName then t.fullName.drop 2 else 46 :: t.fullName
+
+/-- `ToFieldDescriptorProto`; `syn` is the file's syntax code (2/0 proto2, 3 proto3, 9 editions). -/
+def toProtoField (syn : Nat) (f : FieldD) : FieldP :=
+  let edition := if syn == 9 then edition2023 else if syn == 3 then editionProto3 else editionProto2
+  let type0 := if 1 ≤ f.kind && f.kind ≤ 18 then f.kind else 0
+  let type := if syn == 9 && type0 == kGroup then kMessage else type0
+  let label := if syn == 9 && f.cardinality == cRequired then cOptional else f.cardinality
+  { name := f.name
+    number := some f.number
+    label := some label
+    type := type
+    typeName := match f.messageT with
+      | some t => some (fullNameOf t)
+      | none => f.enumT.map fullNameOf
+    extendee := if f.isExtension then f.extendeeT.map fullNameOf else none
+    oneofIndex := f.containingOneof.map fun k => (k : Int)
+    jsonName := match f.p.jsonName with
+      | some j => some (if f.isExtension then jsonCamelCase f.name else j)
+      | none => none
+    proto3Optional := syn == 3 && hasOptionalKeyword edition f
+    defaultOk := if f.hasDefault then some true else none
+    defaultLit := if f.hasDefault then f.p.defaultLit else []
+    packed := f.p.packed
+    lazy := f.p.lazy
+    features := f.p.features }
+
+def toProtoEnum (e : EnumD) : EnumP :=
+  { e.p with values := e.p.values.map fun v => { v with number := some (v.number.getD 0) } }
+
+mutual
+def toProtoMsg (syn : Nat) : MessageD → MessageP
+  | .mk p _ _ fields oneofs nested enums exts =>
+    .mk p.name (fields.map (toProtoField syn)) (oneofs.map (·.p)) (toProtoMsgs syn nested)
+      (enums.map toProtoEnum) (exts.map (toProtoField syn)) p.extRanges p.resRanges p.resNames
+      p.mapEntry p.messageSet p.features
+def toProtoMsgs (syn : Nat) : MessageDList → MessagePList
+  | .nil => .nil
+  | .cons m ms => .cons (toProtoMsg syn m) (toProtoMsgs syn ms)
+end
+
+def toProto (d : FileD) : FileP :=
+  let syn := d.p.syn
+  { path := d.p.path
+    pkg := d.p.pkg
+    syn := if syn == 3 then 3 else if syn == 9 then 9 else 0
+    edition := if syn == 9 then d.edition else 0
+    features := d.p.features
+    messages := toProtoMsgs syn d.messages
+    enums := d.enums.map toProtoEnum
+    exts := d.exts.map (toProtoField syn)
+    services := d.p.services.map fun s =>
+      { s with methods := s.methods.map fun m =>
+          match d.methods.find? fun md => md.p == m with
+          | some md => { m with
+              input := (match md.input with | .ok t => fullNameOf t | .error _ => m.input)
+              output := (match md.output with | .ok t => fullNameOf t | .error _ => m.output) }
+          | none => m } }
+
+end Desc
